@@ -24,7 +24,8 @@ REQUIRED = ["op.occupancy_at_time", "op.state_at_time", "op.occupancies_at_time_
             "op.find_lanelet_by_shape", "op.map_obstacles_to_lanelets", "op.light_state", "op.is_reached",
             "op.goal_reached", "op.eq", "op.hash", "op.copy", "op.deepcopy", "op.pickle", "op.str", "op.draw",
             "op.export_xml", "op.export_pb", "state-without-orientation", "goal-lanelets.dict",
-            "goal-lanelets.defaultdict", "default-constructed-obstacle", "fixture", "light-with-successors"]
+            "goal-lanelets.defaultdict", "default-constructed-obstacle", "fixture", "light-with-successors",
+            "goal-check.scenario-state-with-vx-vy-orientation", "goal_reached.scenario-trajectory"]
 ASSUMPTIONS = ["private caches are not compared (C11 covers them where observable)",
                "an exception raised by a read-only operation is not judged here (totality is C19 / C04 / C08 business)"]
 SHARDS = {"quick": 4, "thorough": 16}
@@ -34,6 +35,10 @@ OPS = ["occupancy_at_time", "state_at_time", "occupancies_at_time_step", "obstac
        "contains_points", "map_obstacles_to_lanelets", "lanelet_geometry", "successors_in_range", "light_state",
        "is_reached", "goal_reached", "eq", "hash", "copy", "deepcopy", "pickle", "str", "draw", "export_xml", "export_pb",
        "occupancy_set"]
+
+
+class ArgChanged(Exception):
+    """an inspecting operation altered the object the caller passed in"""
 
 
 def run(ctx):
@@ -120,11 +125,46 @@ def run(ctx):
                                orientation=rng.uniform(-3, 3), velocity=rng.uniform(0, 30), steering_angle=0.0)
                 pp.goal.is_reached(s)
                 pp.goal.is_reached(st.PMState(time_step=3, position=np.array([0.0, 0.0]), velocity=-2.0, velocity_y=1.0))
+                # states that BELONG to the scenario / planning problem are what users pass in practice
+                pp.goal.is_reached(pp.initial_state)
+                for o in sc.dynamic_obstacles:
+                    for tt in (o.initial_state.time_step, o.initial_state.time_step + 1, o.initial_state.time_step + 2):
+                        so = o.state_at_time(tt)
+                        if so is not None and isinstance(getattr(so, "position", None), np.ndarray) \
+                                and not so.is_uncertain_orientation:
+                            pp.goal.is_reached(so)
+                            if getattr(so, "velocity_y", None) and getattr(so, "orientation", None) is not None:
+                                ctx.feature("goal-check.scenario-state-with-vx-vy-orientation")
+                # a caller-owned state with both velocity components and an orientation must come back unchanged
+                ms = st.MBState(time_step=2, position=np.array([1.0, 2.0]), orientation=0.3, velocity=3.0, velocity_y=-4.0,
+                                steering_angle=0.0, yaw_rate=0.0, roll_angle=0.0, roll_rate=0.0, pitch_angle=0.0,
+                                pitch_rate=0.0, position_z=0.0, velocity_z=0.0, roll_angle_front=0.0,
+                                roll_rate_front=0.0, velocity_y_front=0.0, position_z_front=0.0, velocity_z_front=0.0,
+                                roll_angle_rear=0.0, roll_rate_rear=0.0, velocity_y_rear=0.0, position_z_rear=0.0,
+                                velocity_z_rear=0.0, left_front_wheel_angular_speed=0.0,
+                                right_front_wheel_angular_speed=0.0, left_rear_wheel_angular_speed=0.0,
+                                right_rear_wheel_angular_speed=0.0, delta_y_f=0.0, delta_y_r=0.0)
+                cs = st.CustomState(time_step=2, position=np.array([1.0, 2.0]), orientation=0.3, velocity=3.0,
+                                    velocity_y=-4.0)
+                for own in (ms, cs):
+                    b4 = {a: copy.deepcopy(getattr(own, a)) for a in own.attributes}
+                    pp.goal.is_reached(own)
+                    af = {a: getattr(own, a) for a in own.attributes}
+                    if set(b4) != set(af) or any(not np.array_equal(b4[a], af[a]) for a in b4):
+                        ch = sorted(a for a in set(b4) | set(af) if a not in b4 or a not in af or
+                                    not np.array_equal(b4[a], af[a]))
+                        raise ArgChanged("is_reached", type(own).__name__, ch)
         elif op == "goal_reached":
             for pp in pps.planning_problem_dict.values():
                 tr = Trajectory(1, [st.KSState(time_step=1 + k, position=np.array([float(k), 0.0]), orientation=0.1,
                                                velocity=5.0, steering_angle=0.0) for k in range(4)])
                 pp.goal_reached(tr)
+                for o in sc.dynamic_obstacles:
+                    if isinstance(o.prediction, TrajectoryPrediction) and all(
+                            isinstance(getattr(x, "position", None), np.ndarray) and not x.is_uncertain_orientation
+                            for x in o.prediction.trajectory.state_list):
+                        pp.goal_reached(o.prediction.trajectory)
+                        ctx.feature("goal_reached.scenario-trajectory")
         elif op == "eq":
             _ = sc == sc, pps == pps
             for o in obs:
@@ -189,6 +229,12 @@ def run(ctx):
         sc.add_objects(DynamicObstacle(nid + 3, ObstacleType.CAR, shape, st.InitialState(
             time_step=0, position=np.array([9.0, 9.0]), orientation=1.0)))
         ctx.feature("default-constructed-obstacle")
+        # custom states with position, orientation AND both velocity components (what the XML reader builds)
+        states = [st.CustomState(time_step=1 + k, position=np.array([2.0 + k, -3.0]), orientation=0.2 * k, velocity=4.0,
+                                 velocity_y=1.0 + k) for k in range(3)]
+        sc.add_objects(DynamicObstacle(nid + 4, ObstacleType.CAR, shape, st.InitialState(
+            time_step=0, position=np.array([1.0, -3.0]), orientation=0.0, velocity=4.0),
+            TrajectoryPrediction(Trajectory(1, states), shape)))
 
     def drive(sc, pps, rng, tag, nops):
         base_snap = snapshot(sc, pps)
@@ -199,6 +245,10 @@ def run(ctx):
             seq.append(op)
             try:
                 do(op, sc, pps, rng)
+            except ArgChanged as e:
+                ctx.violation("C18/argument-changed/%s/%s/%s" % (e.args[0], e.args[1], ",".join(e.args[2])),
+                              "operation %s altered attributes %s of the %s passed to it" % (e.args[0], e.args[2], e.args[1]),
+                              {"source": tag, "operations": list(seq)})
             except Exception as e:  # noqa  (not judged here)
                 ctx.counter("op-raised.%s.%s" % (op, type(e).__name__))
             ctx.feature("op." + op)
